@@ -185,7 +185,8 @@ def _fit(case):
                 viol.append((sig("get_transform(labels)"), f"get_transform(labels={L}) differs from get_transform()[labels] by {np.abs(sub - tr[L]).max() if sub.shape == (len(L), nc) else sub.shape:.3g} (mask {case['mask']}, N={N}, shape {shape})"))
                 break
         # what a caller does with a returned projection (standardise it for a plot, flip a sign) must not change later read-outs
-        for reader in ("get_transform()", "get_transform(labels)", "transform(images)"):
+        # (probed for the row chunkings with at most two chunks: the aliasing of a returned array does not depend on how the rows were chunked)
+        for reader in ("get_transform()", "get_transform(labels)", "transform(images)") if len(case["rows"]) <= 2 else ():
             r = clf.get_transform() if reader == "get_transform()" else (clf.get_transform(labels=list(range(N))) if reader == "get_transform(labels)" else clf.transform(dstack))
             if isinstance(r, np.ndarray) and r.flags.writeable:
                 r -= r.mean(axis=0)
